@@ -109,7 +109,7 @@ func checkC11(r *mon.Run) {
 	for i := 0; i < nCfg; i++ {
 		c11Config(r, rng, i)
 	}
-	r.Require(int64(nCfg*60), 80, "delivered_in_range_unchanged", "delivered_redirected", "svc_delivered", "svc_unregistered_not_delivered")
+	r.Require(int64(nCfg*60), 80, "delivered_in_range_unchanged", "delivered_redirected", "svc_delivered", "svc_unregistered_not_delivered", "svc_instance_removed")
 }
 
 func genRange(rng *rand.Rand) string {
@@ -182,6 +182,38 @@ func c11Config(r *mon.Run, rng *rand.Rand, idx int) {
 		w.Svc["DS"] = []string{netip.AddrPortFrom(netip.AddrFrom4([4]byte{10, 8, 0, byte(1 + rng.IntN(250))}), uint16(1+rng.IntN(65535))).String()}
 	}
 	s := mustStar(w)
+	if rng.IntN(2) == 0 {
+		// service registry history after start-up: instances come and go (the
+		// router is told through AddSvc/DelSvc); the reference is the resulting set
+		ia := addr.MustParseIA(w.IA)
+		for k := 2 + rng.IntN(6); k > 0; k-- {
+			cs := w.Svc["CS"]
+			if len(cs) > 1 && rng.IntN(2) == 0 {
+				i := rng.IntN(len(cs))
+				ap := netip.MustParseAddrPort(cs[i])
+				if err := s.C.DelSvc(ia, addr.SvcCS, addr.HostIP(ap.Addr()), ap.Port()); err != nil {
+					r.Inconclusive("delsvc-error")
+				}
+				w.Svc["CS"] = append(append([]string{}, cs[:i]...), cs[i+1:]...)
+				r.Event("svc_instance_removed")
+			} else {
+				ap := netip.AddrPortFrom(netip.AddrFrom4([4]byte{10, 7, byte(rng.IntN(250)), byte(1 + rng.IntN(250))}), uint16(1+rng.IntN(65535)))
+				dup := false
+				for _, x := range cs {
+					if x == ap.String() {
+						dup = true
+					}
+				}
+				if dup {
+					continue
+				}
+				if err := s.C.AddSvc(ia, addr.SvcCS, addr.HostIP(ap.Addr()), ap.Port()); err != nil {
+					r.Inconclusive("addsvc-error")
+				}
+				w.Svc["CS"] = append(cs, ap.String())
+			}
+		}
+	}
 	ref := refRange(w.Range, w.OvStart, w.OvEnd)
 	// ports to probe
 	set := map[int]bool{0: true, 1: true, 30040: true, 30041: true, 30042: true, 65535: true}
